@@ -46,6 +46,12 @@ SHAPES = [
     ('join', 'select a1, b2 join b on a1 == b1', True, False),
     ('header', 'select a.name, a.num', False, True),
     ('header-sorted', 'select * order by a.num desc', False, True),
+    # an empty result is still a successful run (header, no write, one finish)
+    ('top-0', 'select top 0 a1, a2', False, False),
+    ('limit-0-sorted', 'select a1 order by a1 limit 0', False, True),
+    ('limit-0-distinct-count', 'select distinct count a1 limit 0', False, False),
+    ('where-nothing', 'select a1 where NR < 0', False, False),
+    ('limit-1-aggregated', 'select a1, count(*) group by a1 limit 1', False, False),
 ]
 
 
@@ -145,7 +151,7 @@ def shard_pipe(shard, nshards, tier, seed, scratch):
                     fail('fault-not-reached', detail, case)
                 if sink.failed_writes > 2:
                     fail('keeps-writing-after-broken-pipe', dict(detail, failed_attempts=sink.failed_writes), case)
-                buffering = name in ('sorted', 'aggregated', 'distinct-count', 'header-sorted')   # these read all input before their first record write by design
+                buffering = any(x in query.lower() for x in ('order by', 'group by', 'distinct count'))   # these read all input before their first record write by design
                 if not buffering and holder.get('pulled') is not None and it2.pulled - holder['pulled'] > 1:
                     fail('keeps-pulling-after-broken-pipe', dict(detail, pulled_at_failure=holder['pulled'], pulled_total=it2.pulled), case)
             elif got != full_text:
